@@ -662,6 +662,12 @@ def oracle(ctx, np, pre):
         if style == "wide" and dt.kind == "f":
             style = "full"
         x = rand_values(r, np, dt, rand_len(r, maxlen), style)
+        if dt.itemsize > 1 and r.random() < 0.12:
+            # samples in the other byte order (PCM mapped from a big-endian container): "the input dtype" includes it
+            x = x.astype(dt.newbyteorder())
+            dt = x.dtype
+            dtn = dt.str
+            ctx.count("oracle:byte-swapped-dtype")
         c = rand_coeff(r, nonneg=(which == "dither"))
         ip, axis = rand_call(r)
         seed = r.randrange(2 ** 32)
